@@ -107,7 +107,10 @@ def execute(case):
                 newer_died = [r["pid"] for r in w.kernel.spawn_log
                               if r["owner"] == name and r["pid"] and
                               r["t"] >= req.t - EPS and
-                              w.kernel.state(r["pid"]) != 'running']
+                              w.kernel.state(r["pid"]) != 'running' and
+                              # ... by itself, not terminated by the daemon
+                              w.kernel.procs[r["pid"]].cause in (
+                                  'external', 'fault', 'lifetime')]
                 for pid in w.eff_live(name):
                     p = w.kernel.procs[pid]
                     if p.spawned_at < req.t - EPS:
